@@ -1,5 +1,5 @@
 """C11: logging fidelity -- the log files are an exact transcript."""
-from simpex import sendlog, interact_fam, unicode_fam, run_fam
+from simpex import sendlog, interact_fam, unicode_fam, run_fam, async_fam
 from simpex.runner import CheckSpec
 from checks.c01_c03_engine import COMPONENTS
 
@@ -15,14 +15,14 @@ RULE = ('the C08 histories (send family interleaved with reads against an echoin
         'files switched to another object or to None in mid-history (each object holds the transcript of exactly the period it was '
         'attached), awaited reads with the kernel-truth clause, a failing sendall (the argument is logged although the send fails). '
         'In a twentieth of the runs the log is handed to run(logfile=...) (C12 dialogues): every write is the next chunk read or the next '
-        'response sent, all of them are there, each followed by a flush. Ninth round: log doubles that are containers (falsy while empty) in a quarter of the runs; sends abandoned from outside (the log may or may not hold the abandoned call). Non-trivial: >= 1 log write; distinct by trace digest')
+        'response sent, all of them are there, each followed by a flush. Tenth round: a twelfth of the runs are awaited histories of the C14 generator (deadline ties, text arriving while no call is outstanding) with a read log judged against the bytes the kernel handed over. Ninth round: log doubles that are containers (falsy while empty) in a quarter of the runs; sends abandoned from outside (the log may or may not hold the abandoned call). Non-trivial: >= 1 log write; distinct by trace digest')
 
 ASSUME = ['a quarter of the runs are interact() sessions (C15 harness) with log files attached (clauses C11.interact_*)']
 
 
 def nontrivial(scn, info):
     c = info.get('counters', {})
-    return c.get('sent_bytes', 0) > 0 or c.get('read_chunks', 0) > 0 or c.get('typed', 0) > 0 or c.get('child_wrote', 0) > 0 or scn.get('family') in ('unicode', 'run')
+    return c.get('sent_bytes', 0) > 0 or c.get('read_chunks', 0) > 0 or c.get('typed', 0) > 0 or c.get('child_wrote', 0) > 0 or scn.get('family') in ('unicode', 'run', 'async')
 
 
 def tag(scn, v):
@@ -39,6 +39,14 @@ def generate(rng):
             if scn.get('drain') == 'read':
                 scn['drain'] = 'expect_eof'
         return scn
+    if rng.random() < 0.08:
+        # awaited histories with deadline ties (C14's generator) and a read log: everything the kernel handed over is in it
+        scn = async_fam.generate(rng)
+        if not scn.get('bad_byte') and scn.get('second_loop_at') is None:
+            scn['logs'] = ['logfile_read']
+            if rng.random() < 0.25:
+                scn['log_kind'] = 'len'
+            return scn
     if rng.random() < 0.05:
         # run(logfile=...): the transcript of a whole scripted dialogue
         scn = run_fam.generate(rng)
@@ -66,6 +74,9 @@ def run(scn):
                 v.detail['log'] = 'async' if scn.get('async') else 'sync'
                 out.append(v)
         return out, info
+    if scn.get('family') == 'async':
+        vs, info = async_fam.run(scn)
+        return [v for v in vs if v.clause.startswith('C11')], info
     if scn.get('family') == 'run':
         vs, info = run_fam.run(scn)
         return [v for v in vs if v.clause.startswith('C11')], info
